@@ -124,7 +124,7 @@ def c13_oracle(case, obs):
                     if e[1] + half > e[2]:
                         out.append(("step %d: listener %s has %d established-unaccepted + %d handshaking children, backlog %d"
                                     % (i, e[3], e[1], half, e[2]), None))
-        if c[0] == "accept" and o.get("r") == "ok":
+        if c[0] in ("accept", "accept_w") and o.get("r") == "ok":
             frm = tuple(o["from"])
             loc, peer = o["a"]["local"], o["a"]["peer"]
             key = (frm, tuple(loc) if isinstance(loc, list) else None)
@@ -137,6 +137,29 @@ def c13_oracle(case, obs):
                 out.append(("step %d: accepted connection %s -> %s matches no SYN that was ever sent" % (i, frm, loc), None))
     for s, (loc, peer) in addrs.items():
         pass
+    # --- wake-up delivery: a task parked in accept() is woken once a connection sits in the ready queue ---
+    parked = {}        # task -> (step of its pending accept_w, listener slot)
+    lports = {}        # listener slot -> (host, port)
+    ready_seen = {}    # listener slot -> step of a netstat showing an established-unaccepted connection
+    for i, (c, o) in enumerate(zip(script, ob)):
+        if c[0] == "listen" and o.get("r") == "ok":
+            lports[c[1]] = (c[2], c[4])
+        elif c[0] == "accept_w":
+            if o.get("r") == "pending":
+                parked[c[3]] = (i, c[1])
+                ready_seen.pop(c[1], None)
+            else:
+                parked.pop(c[3], None)
+        elif c[0] == "netstat":
+            for lsl, (h, port) in lports.items():
+                if h == c[1] and any(e[0] == 0 and e[5] == "Listen" and e[3][1] == port and e[1] >= 1 for e in o["ns"]):
+                    ready_seen.setdefault(lsl, i)
+        elif c[0] == "woken" and c[1] in parked:
+            j, lsl = parked[c[1]]
+            if lsl in ready_seen and ready_seen[lsl] > j and not o.get("woken"):
+                out.append(("step %d: task %d has been parked in accept() on slot %d since step %d and a connection has been in the "
+                            "listener's ready queue since step %d at the latest, but the task's waker was never woken: its accept() "
+                            "never returns although connect succeeded" % (i, c[1], lsl, j, ready_seen[lsl]), None))
     # --- connect succeeded and losses stayed within the retransmit budget: accept hands the connection out ---
     plan = case.get("plan") or {}
     ea = plan.get("expect_accept")
@@ -264,7 +287,9 @@ class Spec(PropSpec):
             "targets with and without listener, unowned addresses; after the teardown both hosts are probed (netstat, "
             "verif-hooks table counts and rows) and the port is bound again; deterministic family: the bare ACK of the handshake "
             "is lost and the client does not speak first (accept must still hand the connection out, once); exactly the first "
-            "SYN / the first SYN-ACK is lost, then data, close, quiet rounds, table probes and re-bind. Non-trivial = at least two of "
+            "SYN / the first SYN-ACK is lost, then data, close, quiet rounds, table probes and re-bind; 'accept_wakers': several "
+            "simulated tasks (own wakers) park in accept() on one listener, the earlier ones abandon it, then connections "
+            "arrive - the live acceptor's waker must be woken. Non-trivial = at least two of "
             "{connect ok, refused, timed out, accept, cancel} occurred; distinct = distinct (cfg, script)")
     assumptions = [
         "c13_index_coherent quantifies over every syscall sequence with arbitrary arguments and every inbound packet sequence (kreach)",
@@ -282,7 +307,7 @@ class Spec(PropSpec):
         n = 400 if ctx.tier == "quick" else 3000
         if ctx.escalate:
             n *= 2
-        cases = F.handshake_ack_lost_cases() + F.hs_retx_cases()
+        cases = F.handshake_ack_lost_cases() + F.hs_retx_cases() + F.accept_waker_cases()
         for i in range(n):
             r = i % 10
             if r < 7:
